@@ -1,4 +1,5 @@
 import H4.BitIO
+import H4.BitIOFn
 import H4.Driver.Util
 namespace H4.Driver
 open H4.BitIO
@@ -37,6 +38,67 @@ def runOps : St → List BitOp → List String → St × List String
     let (s', ok) := bitseek s a b
     runOps s' ops ((if ok then "s0" else "sfail") :: acc)
 
+/- function-level Tie A cross-run: `Hbitwrite` / `Hbitread` / `Hbitseek` / `HIbitflush` (with `HIread2write` / `HIwrite2read` inside) as
+    TRANSLATED from hbitio.c by gen/c2lean.py (`H4.Gen.Fn.Hbitio2`, run through the wrappers of `H4.BitIOFn`) are executed in lockstep
+    with the hand-written model on every `T bits pack/pack1/unpack/script` line: the record starts as the C view `St.toC` of the model's
+    `startWrite` / `startRead` state (Hstartbitwrite / Hstartbitread are not translated), and after EVERY call the return value, the data
+    word, the `ub` flag (against the model's `oob`) and the WHOLE record (all `bitrec_t` members, the 4096-byte buffer, the element, its
+    position) are compared with the model's; at the end the translated flush of `Hendbitaccess` must leave the model's element bytes.
+    A difference (or `oof`) is appended as ` GEN=…` and so shows up as a DIFF against the real C (`H4.Props.C05BitsFn` proves the
+    part of this that is a theorem). -/
+namespace GenBits
+def errAt (i : Nat) (what : String) : Except String α := .error s!"{what}@op{i}"
+
+def check (i : Nat) (o : COut) (m' : St) : Except String Unit :=
+  if o.oof then errAt i "oof"
+  else if o.ub != m'.oob then errAt i (if o.ub then "ub" else "model-oob-only")
+  else if !m'.oob && !m'.err && o.crec != m'.toC then errAt i "state"
+  else .ok ()
+
+def run : St → CRec → List BitOp → Nat → Except String (St × CRec)
+  | m, r, [], _ => .ok (m, r)
+  | m, r, op :: ops, i => do
+    if m.oob || m.err then return (m, r)       -- the model has left the states it shares with the C record
+    match op with
+    | .wr w v =>
+      let (m', res) := bitwrite m w v
+      let o := cBitwrite callFuel r w (v % 2 ^ 32)
+      check i o m'
+      if o.ret != (match res with | some n => (n : Int) | none => -1) then errAt i s!"wret={o.ret}"
+      run m' o.crec ops (i + 1)
+    | .rd w =>
+      let (m', res) := bitread m w
+      let (o, d) := cBitread callFuel r w 0xDEADBEEF
+      check i o m'
+      match res with
+      | some (n, v) => if o.ret != n || d != v then errAt i s!"read={o.ret}:{d}"
+      | none => if o.ret != -1 || d != 0xDEADBEEF then errAt i s!"read={o.ret}:{d}"
+      run m' o.crec ops (i + 1)
+    | .seek a b =>
+      let (m', ok) := bitseek m a b
+      let o := cBitseek callFuel r a b
+      check i o m'
+      if o.ret != (if ok then 0 else -1) then errAt i s!"sret={o.ret}"
+      run m' o.crec ops (i + 1)
+
+/-- the whole line: ops, then the flush of `Hendbitaccess(id, fb)`; `none` = no difference -/
+def line (m0 : St) (ops : List BitOp) (fb : Bool) : Option String :=
+  match run m0 m0.toC ops 0 with
+  | .error e => some e
+  | .ok (m, r) =>
+    if m.oob || m.err then none
+    else
+      let o := cEnd callFuel r (some fb)
+      if o.ub then some "end-ub" else if o.oof then some "end-oof" else if o.ret != 0 then some s!"end-ret={o.ret}"
+      else if o.crec.elt != ints (endAccess m (some fb)) then some "end-bytes"
+      else none
+
+def tag (model : String) (g : Option String) : String :=
+  match g with
+  | none => model
+  | some x => s!"{model} GEN={x}"
+end GenBits
+
 /-- engine `bits`:
     `pack <w:v,...>` => bytes of a fresh element after the writes and `Hendbitaccess(id, 0)`
     `pack1 <w:v,...>` => same with flushbit 1
@@ -46,15 +108,15 @@ def runOps : St → List BitOp → List String → St × List String
 def stepBits (args : List String) : String :=
   match args with
   | ["pack", f] => match parseFields f with
-    | some fs => toHex (pack fs (some false))
+    | some fs => GenBits.tag (toHex (pack fs (some false))) (GenBits.line (startWrite none) (fs.map fun f => .wr f.1 f.2) false)
     | none => "bad-op"
   | ["pack1", f] => match parseFields f with
-    | some fs => toHex (pack fs (some true))
+    | some fs => GenBits.tag (toHex (pack fs (some true))) (GenBits.line (startWrite none) (fs.map fun f => .wr f.1 f.2) true)
     | none => "bad-op"
   | ["unpack", d, w] => match parseHex d, natList w with
-    | some bs, some ws => match unpack bs ws with
-      | some vs => showNatList vs
-      | none => "fail"
+    | some bs, some ws => GenBits.tag (match unpack bs ws with
+        | some vs => showNatList vs
+        | none => "fail") (GenBits.line (startRead bs) (ws.map .rd) false)
     | _, _ => "bad-op"
   | ["script", init, acc, o] =>
     let ops := if o == "-" then some [] else (o.splitOn ",").mapM parseOp
@@ -66,7 +128,8 @@ def stepBits (args : List String) : String :=
     | some ops, some s =>
       let (s', res) := runOps s ops []
       let fin := endAccess s' (some false)
-      (if res.isEmpty then "-" else ",".intercalate res) ++ " " ++ (if s'.oob then "oob" else toHex fin)
+      GenBits.tag ((if res.isEmpty then "-" else ",".intercalate res) ++ " " ++ (if s'.oob then "oob" else toHex fin))
+        (GenBits.line s ops false)
     | _, _ => "bad-op"
   | _ => "bad-op"
 
